@@ -56,7 +56,8 @@ impl Decoder for ServerCodec {
         }
         match self.state {
             CodecState::Header => {
-                if src.remaining() < 60 || src.remaining() < 59 + address::try_decode_at(src, 59)? {
+                // hash(56) CRLF command address CRLF
+                if src.remaining() < 61 || src.remaining() < 61 + address::try_decode_at(src, 59)? {
                     return Ok(None);
                 }
                 if src[56] != b'\r' {
